@@ -232,4 +232,30 @@ PROPS = {
         "assumptions": ["the specification functions were transcribed from the 0.4.0 sources and the RFC; agreement with recorded vectors is not checked here",
                         "generator derivation (SHAKE256 chains, SHA3-512 masking basepoints) is not under contract"],
     },
+    "C11": {
+        "units": ["gens_new", "gens", "ctors"],
+        "design_ref": "DESIGN.md section 7, C11",
+        "technique": "contract-based deductive verification (Verus) of the real BulletproofGens::new, generator iterators and accessors against a SHAKE256 / hash-to-group model",
+        "claim": "Proved: BulletproofGens::new(n, c) returns Ok iff c <= 2^32, and then g_vec[i][j] is the j-th point of the generator chain labelled 'G' || le32(i) and h_vec[i][j] "
+                 "the j-th point of the chain labelled 'H' || le32(i), for all i < c, j < n; the precomputation table is exactly the interleaving of the flattened G and H vectors; "
+                 "g_iter / h_iter (the real AggregatedGensIter::next, verified against vstd's iterator laws) yield the first n*m generators party-major; RangeStatement::init stores "
+                 "compress(commitment_i) position-wise; the accessors return the stored fields. Determinism is a consequence of the functional contracts. NOT decidable by "
+                 "contracts: pairwise distinctness and non-identity (facts about concrete SHAKE/SHA3 outputs), the once-initialised statics of ristretto.rs (string formatting "
+                 "inside OnceCell closures) and 'on every thread'.",
+        "assumptions": ["GeneratorsChain::new(label).take(n) is modelled as the first n points p_from_uniform(SHAKE256('GeneratorsChain' || label)[64j..64j+64]) (site-specific rewrite R-CHAINTAKE; the chain's own body is not under contract)",
+                        "byteorder::LittleEndian::write_u32, Iterator::flat_map over |v| v.iter(), itertools::interleave and the dalek precomputation constructor are modelled by their documented sequence semantics",
+                        "blinding generators and the value generator (ristretto.rs) are outside the units under contract"],
+    },
+    "C12": {
+        "units": ["gens_new", "gens", "ctors", "verify", "verify_rel", "prove"],
+        "design_ref": "DESIGN.md section 7, C12",
+        "technique": "contract-based deductive verification (Verus): generator (i, j) is a function of (label, i, j) only; padding contract; multiscalar length preconditions for every capacity on both sides; untouched tail of the shared scalar vectors",
+        "claim": "Proved: generator j of party i is the chain point of ('G'|'H', i, j), so two parameter sets of the same bit length agree on every generator both contain "
+                 "(lemma_capacity_independent), and the table of capacity c restricted to its first 2*n*m entries is the same interleaving; compute_generator_padding returns "
+                 "2*n*c - 2*n*m exactly when it fits; the prover's and the verifier's precomputed multiscalar calls meet the dalek 'static scalars == table size' precondition for "
+                 "every capacity >= m and every batch mixture (the verifier uses the largest member's table); a proof with n*m below the batch maximum leaves the tail of the shared "
+                 "G/H scalar vectors untouched and the padding scalars are zero. Not covered: agreement of gi/hi prefixes across batch members is checked by the code with "
+                 "Iterator::any over a closure, whose result is not specified here.",
+        "assumptions": ["same as C11 for the chain model", "prefix comparison of generator vectors in the consistency check (Iterator::any) is not under contract"],
+    },
 }
